@@ -239,7 +239,8 @@ def obs(vc):
     vc.install(CE + "@Query", lambda *a: _NS(join=lambda *b: _NS(filter=lambda *c: (queries.append(c), "QUERY")[1])))
     vc.install(CE + "@Epoch", _NS(timestampISO=_NS(__eq__=None)))
     vc.install(CE + "@ray", _NS(get=lambda h: h))
-    sensors = {10: _NS(measurement="M10"), 11: _NS(measurement="M11")}
+    # the engine's sensor store holds the sensing AGENTS (Scenario.stepForward: ray.put(sensor_agent)); the measurement model lives on the agent's sensor
+    sensors = {10: vc.new(SA + "SensingAgent", _sensors=_NS(measurement="M10")), 11: vc.new(SA + "SensingAgent", _sensors=_NS(measurement="M11"))}
     when = _NS(isoformat=lambda timespec=None: "ISO-NOW")
     eng = vc.new(CE + "CentralizedTaskingEngine", _importer_db=_NS(getData=lambda q: list(rows)), _sensor_store=sensors, _observations=[], _saved_observations=[],
                  _realtime_obs=False, target_list=[1, 2], sensor_list=[10, 11], _reward=_NS(metrics=[1]), logger=SF.NullLogger())
